@@ -9,7 +9,9 @@ Definition tag_code (t : tag) : Z :=
 Definition obs_eff (e : eff) : T :=
   match e with
   | EReject k => Tl [Tn 1; TN k]
-  | EWrite st (ma, mi) cl hd => Tl [Tn 2; TN st; TN ma; TN mi; Tbool cl; Tbool hd]
+  (* last component: the body is exactly as long as announced (Content-Length, chunked framing, or none for HEAD);
+     nothing more is claimed about an error page *)
+  | EWrite st (ma, mi) cl hd => Tl [Tn 2; TN st; TN ma; TN mi; Tbool cl; Tbool hd; Tbool true]
   | EClose => Tl [Tn 3]
   | EDispatch => Tl [Tn 4]
   | ECrash => Tl [Tn 9]
@@ -34,8 +36,51 @@ Definition obs_run (secure : bool) (h : list op) : T := Tl (obs_ops secure empty
 
 (* compact constructors for the generated cases *)
 Definition mkF (h : bool) (e : option perr) (m : bool) : pflags := {| hc := h; perrno := e; mc := m |}.
-Definition mkR (ma mi : N) (hd host te ka : bool) : reqinfo :=
-  {| rver := (ma, mi); is_head := hd; has_host := host; te_chunked := te; keepalive := ka |}.
+Definition mkR (ma mi : N) (hd host hctl te ka : bool) : reqinfo :=
+  {| rver := (ma, mi); is_head := hd; has_host := host; host_ctl := hctl; te_chunked := te; keepalive := ka |}.
 Definition mkA (s : res bool) (x : res pflags) (er : res (version * bool)) (rq : res reqinfo) (cl : res Z)
                (p : res pathans) (xr : res unit) (ap : res N) : answers :=
   {| a_ssl := s; a_exec := x; a_errreq := er; a_req := rq; a_clen := cl; a_path := p; a_excreq := xr; a_app := ap |}.
+
+(* the parser's decision about the head of a request; [impl] is what the real parser decided, returned
+   unchanged where the model declares the input outside its concrete layer *)
+Definition verdict_code (v : verdict) (impl : Z) : Z :=
+  match v with
+  | NeedMore => 0
+  | Bad BadFirstLine => 1
+  | Bad InvalidHeader => 2
+  | Bad InvalidChunk => 4
+  | HeadersOk => 3
+  | Unmodelled => impl
+  end%Z.
+Definition obs_classify (bs : list N) (impl : Z) : T := Tl [Tn (verdict_code (classify bs) impl)].
+(* 1 when the verdict is definite *)
+Definition obs_definite (bs : list N) : T :=
+  Tn (match classify bs with Unmodelled => 0 | _ => 1 end)%Z.
+
+(* bursts: the cascades of different reads interleave in the real loop, so effects are compared per socket as
+   multisets: each effect becomes one integer key, keys are sorted *)
+Definition eff_key (e : eff) : Z :=
+  match e with
+  | EReject k => 1000000 + Z.of_N k
+  | EWrite st (ma, mi) cl hd =>
+      let ver := if (ma =? 1)%N && (mi =? 0)%N then 0 else if (ma =? 1)%N && (mi =? 1)%N then 1 else 2 in
+      2000000 + ((Z.of_N st * 10 + ver) * 8 + (if cl then 4 else 0) + (if hd then 2 else 0) + 1)
+  | EClose => 3000000
+  | EDispatch => 4000000
+  | ECrash => 9000000
+  | EOutOfFuel => 8000000
+  end%Z.
+Fixpoint zinsert (x : Z) (l : list Z) : list Z :=
+  match l with [] => [x] | y :: r => if (x <=? y)%Z then x :: l else y :: zinsert x r end.
+Definition zsort (l : list Z) : list Z := fold_right zinsert [] l.
+
+(* per read (queue order) the call sites consulted by _on_read ++ by its cascade; per listed socket the sorted
+   effect keys and the final state *)
+Definition obs_burst (secure : bool) (h : list op) (socks : list nat) : T :=
+  let '(t1, ps, tg1) := phase1 secure empty_tables h in
+  let '(t2, es, tg2) := phase2 t1 ps in
+  Tl [Tl (map (fun '(x, y) => Tl (map (fun z => Tn (tag_code z)) (x ++ y))) (combine tg1 tg2));
+      Tl (map (fun s => Tl (map Tn (zsort (map eff_key
+            (concat (map snd (filter (fun '(s', _) => Nat.eqb s' s) es))))))) socks);
+      Tl (map (fun s => obs_conn (t2 s)) socks)].
